@@ -73,6 +73,15 @@ CHECKS = {
   design_ref="DESIGN.md 4.4, 5/C14, 6",
   note="The growth schedule itself (magic numbers) is not part of the oracle; only the invariants the property states are.",
   technique="property-based testing with captured random draws and invariant oracle over the iteration history"),
+ "C15": dict(
+  category="exploration",
+  text="Generated observation sets (unsorted, duplicated times, float/Time tcb/utc input, independent rv/err units, 1-D errors or "
+       "covariances, NaN/inf injections, clean on/off, t_ref choices) with a serial-number tag in every observation; oracle = retained "
+       "multiset, time order, pairing by tag, units, ivar, default/explicit t_ref, copy() and slicing/indexing. Led to one fix: commit "
+       "(copy() dropped t_ref).",
+  design_ref="DESIGN.md 5/C15, 6", note="Trusts astropy Time scale conversion (used identically by the harness to predict stored BMJD values). "
+       "Data sets without any finite observation are outside the domain (not constructible).",
+  technique="property-based testing with tagged observations (provenance oracle)"),
  "C16": dict(
   category="exploration",
   text="Exhaustive enumeration of batch_tasks on a bounded box (n_tasks<=160 x n_batches<=200 x 4 start indices x "
@@ -82,6 +91,21 @@ CHECKS = {
   design_ref="DESIGN.md 5/C16",
   note="Trusts Python integer arithmetic and numpy slicing. Outside the enumerated box the claim is 'held on all sampled values'.",
   technique="exhaustive enumeration + Hypothesis generated inputs vs. partition predicate"),
+ "C17": dict(
+  category="exploration",
+  text="Generated sample tables (sign of K, angle ranges/units, period units, trends, offsets, metadata) and index expressions; "
+       "oracle = RV-curve invariance under wrap_K via an independent Kepler solve, mean-anomaly equation for get_t0 / "
+       "get_time_with_phase, pack/unpack round trip, metadata/unit preservation of indexing/copy/mean/std/median_period, "
+       "membership and median property of median_period.",
+  design_ref="DESIGN.md 5/C17", note="Independent Newton/bisection Kepler solver in longdouble (vt/oracle_gauss.py) is the reference for RV curves.",
+  technique="property-based testing: metamorphic (RV invariance) + round-trip + invariant oracles"),
+ "C19": dict(
+  category="exploration",
+  text="Generated observing patterns (a third with the largest empty arc across phase 1->0), periods, bin counts, sample tables with "
+       "ties; oracle = brute-force definitions plus permutation and time-reversal metamorphic relations. Led to one fix: commit "
+       "(max_phase_gap ignored the wrap-around arc).",
+  design_ref="DESIGN.md 5/C19, 6", note="Phases within 1e-9 of a bin edge are treated as ambiguous for phase_coverage; ties in MAP_sample may resolve to any maximiser.",
+  technique="property-based testing against brute-force definitions + metamorphic relations"),
 }
 
 def main():
